@@ -19,7 +19,7 @@ import (
 func VerifC07_BindingDeposit() {
 	verifExpect("done", "refused")
 	e := newSvEnv(false)
-	zero, one, w := big.NewInt(0), big.NewInt(1), verifPow2(64)
+	zero, one, w := big.NewInt(0), big.NewInt(1), verifAmt(64)
 	recorded := verifIntIn("recorded", zero, w)
 	others := verifIntIn("othersRecorded", zero, w)
 	available := verifBool("available")
@@ -38,17 +38,17 @@ func VerifC07_BindingDeposit() {
 	e.k.SetOwnerServiceBinding(e.ctx, b)
 	e.k.SetOwner(e.ctx, e.p1, e.owner)
 	e.k.SetOwnerProvider(e.ctx, e.owner, e.p1)
-	e.k.SetPricing(e.ctx, svService, e.p1, types.Pricing{Price: svCoins(svDenom, verifIntIn("price", one, verifPow2(40)))})
+	e.k.SetPricing(e.ctx, svService, e.p1, types.Pricing{Price: svCoins(svDenom, verifIntIn("price", one, verifAmt(40)))})
 	// the other bindings' deposits sit in the same escrow
 	b2 := types.NewServiceBinding(svService, e.p2, svCoins(svDenom, others.Add(sdkmath.OneInt())), "{}", 5, "{}", true, time.Time{}, e.owner2)
 	e.k.SetServiceBinding(e.ctx, b2)
 	e.bank.fund(vModuleAddr(types.DepositAccName), svDenom, recorded.Add(others).Add(sdkmath.OneInt()))
-	e.bank.fund(e.owner, svDenom, verifIntIn("ownerWallet", zero, verifPow2(66)))
+	e.bank.fund(e.owner, svDenom, verifIntIn("ownerWallet", zero, verifAmt(66)))
 	actor := e.owner
 	isOwner := verifChoice("actor", 2) == 0
 	if !isOwner {
 		actor = e.owner2
-		e.bank.fund(e.owner2, svDenom, verifIntIn("strangerWallet", zero, verifPow2(66)))
+		e.bank.fund(e.owner2, svDenom, verifIntIn("strangerWallet", zero, verifAmt(66)))
 	}
 	amt := verifIntIn("deposit", zero, w)
 	var deposit sdk.Coins
